@@ -114,3 +114,164 @@ func tracesTo(v ssa.Value, param, field string, preserving []string, seen map[ss
 	}
 	return fmt.Sprintf("comes from %T", v)
 }
+
+// SortByComparator: fn is `slices.SortFunc(recv, <closure>); return recv` with the named
+// comparator and nothing else.
+func SortByComparator(prog *load.Program, fn *ssa.Function, comparator string) Result {
+	res := Result{Name: fnKey(fn) + "/sorts-by-verified-comparator", Func: fnKey(fn), Pos: prog.Pos(fn.Pos())}
+	if len(fn.Blocks) != 1 {
+		res.Detail = "more than one block"
+		return res
+	}
+	var calls []*ssa.Call
+	for _, in := range fn.Blocks[0].Instrs {
+		switch x := in.(type) {
+		case *ssa.Call:
+			calls = append(calls, x)
+		case *ssa.Store, *ssa.MapUpdate:
+			res.Detail = "the body has side effects besides the sort"
+			return res
+		}
+	}
+	if len(calls) != 1 || calleeName(&calls[0].Call) != "slices.SortFunc" {
+		res.Detail = "the body is not a single call to slices.SortFunc"
+		return res
+	}
+	c := calls[0]
+	if p, ok := c.Call.Args[0].(*ssa.Parameter); !ok || p != fn.Params[0] {
+		res.Detail = "the sorted slice is not the receiver"
+		return res
+	}
+	var cmp *ssa.Function
+	switch f := c.Call.Args[1].(type) {
+	case *ssa.Function:
+		cmp = f
+	case *ssa.MakeClosure:
+		cmp = f.Fn.(*ssa.Function)
+		if len(f.Bindings) > 0 {
+			res.Detail = "the comparator captures variables"
+			return res
+		}
+	}
+	if cmp == nil || load.FuncName(cmp) != comparator {
+		res.Detail = "the comparator is not " + comparator
+		return res
+	}
+	ret := fn.Blocks[0].Instrs[len(fn.Blocks[0].Instrs)-1].(*ssa.Return)
+	if len(ret.Results) != 1 || ret.Results[0] != ssa.Value(fn.Params[0]) {
+		res.Detail = "the result is not the sorted receiver"
+		return res
+	}
+	res.OK = true
+	res.Detail = "slices.SortFunc(r, " + comparator + "); return r"
+	return res
+}
+
+// DirectiveRunShape: Run applies, in the order of the matches of regDirective in the
+// original text, the directive registered under the name of each match to the text produced
+// so far, and returns the last text; an unknown name or a failing Apply is an error.
+func DirectiveRunShape(prog *load.Program, fn *ssa.Function) Result {
+	res := Result{Name: fnKey(fn) + "/applies-each-directive-in-order", Func: fnKey(fn), Pos: prog.Pos(fn.Pos())}
+	var apply *ssa.Call
+	var find *ssa.Call
+	for _, b := range fn.Blocks {
+		for _, in := range b.Instrs {
+			c, ok := in.(*ssa.Call)
+			if !ok {
+				continue
+			}
+			if c.Call.IsInvoke() && c.Call.Method.Name() == "Apply" {
+				if apply != nil {
+					res.Detail = "more than one Apply call"
+					return res
+				}
+				apply = c
+			}
+			if calleeName(&c.Call) == "(*regexp.Regexp).FindAllStringSubmatch" {
+				find = c
+			}
+		}
+	}
+	if apply == nil || find == nil {
+		res.Detail = "no Apply call or no FindAllStringSubmatch"
+		return res
+	}
+	if p, ok := find.Call.Args[1].(*ssa.Parameter); !ok || p.Name() != "profile" {
+		res.Detail = "the directives are not searched in the text given to Run"
+		return res
+	}
+	if ld, ok := find.Call.Args[0].(*ssa.UnOp); !ok || ld.X.Name() != "regDirective" {
+		res.Detail = "the directives are not searched with regDirective"
+		return res
+	}
+	phi, ok := apply.Call.Args[1].(*ssa.Phi)
+	if !ok {
+		res.Detail = "the text passed to Apply is not the loop-carried profile"
+		return res
+	}
+	fed := false
+	for _, e := range phi.Edges {
+		if ex, ok := e.(*ssa.Extract); ok && ex.Tuple == ssa.Value(apply) && ex.Index == 0 {
+			fed = true
+		}
+	}
+	if !fed {
+		res.Detail = "the result of Apply is not carried to the next directive"
+		return res
+	}
+	// the option comes from NewOption(file, match[k]) with k the range index over the matches
+	opt, ok := apply.Call.Args[0].(*ssa.Call)
+	if !ok || calleeName(&opt.Call) != load.Module+"/pkg/prebuild/directive.NewOption" {
+		res.Detail = "the option is not NewOption(file, match)"
+		return res
+	}
+	if t := tracesElem(opt.Call.Args[1], find); t != "" {
+		res.Detail = t
+		return res
+	}
+	// the receiver is Directives[opt.Name]
+	ex, ok := apply.Call.Value.(*ssa.Extract)
+	if !ok {
+		res.Detail = "the directive is not looked up in a map"
+		return res
+	}
+	lk, ok := ex.Tuple.(*ssa.Lookup)
+	if !ok {
+		res.Detail = "the directive is not looked up in a map"
+		return res
+	}
+	if ld, ok := lk.X.(*ssa.UnOp); !ok || ld.X.Name() != "Directives" {
+		res.Detail = "the directive is not looked up in Directives"
+		return res
+	}
+	// every return of a nil error returns the loop-carried text
+	for _, b := range fn.Blocks {
+		if r, ok := b.Instrs[len(b.Instrs)-1].(*ssa.Return); ok && !isErrorReturn(r) {
+			if r.Results[0] != ssa.Value(phi) {
+				res.Detail = "a successful return does not return the text produced by the last directive"
+				return res
+			}
+		}
+	}
+	res.OK = true
+	res.Detail = "for each match of regDirective in order: profile, err = Directives[NewOption(file, match).Name].Apply(opt, profile)"
+	return res
+}
+
+// tracesElem: v is the k-th element of the result of call, k the range index.
+func tracesElem(v ssa.Value, call *ssa.Call) string {
+	ld, ok := v.(*ssa.UnOp)
+	if !ok {
+		return "the match is not an element of the match list"
+	}
+	ia, ok := ld.X.(*ssa.IndexAddr)
+	if !ok || ia.X != ssa.Value(call) {
+		return "the match is not an element of the match list"
+	}
+	if bo, ok := ia.Index.(*ssa.BinOp); ok && bo.Op == token.ADD {
+		if phi, ok := bo.X.(*ssa.Phi); ok && phi.Comment == "rangeindex" {
+			return ""
+		}
+	}
+	return "the matches are not walked in order"
+}
